@@ -195,24 +195,25 @@ def check_tx(res, N, exons, strand, cds, f0, a, b, cs="+"):
         # length of the 5'-most stretch of the CDS inside the chunk that lies in one exon
         first_exon = next(e for e in F.exons_5to3(cb, strand) if any(a <= p < b for p in e))
         first_chunk_block_len = sum(1 for p in first_exon if a <= p < b)
-    if cds_inside and cs == "+":
+    if cds_inside:
         o = lib.outcome(lambda: ([f.value for f in T1.cds.chunk_relative_frames], lib.loc_blocks(T1.cds.chunk_relative_location)))
         res.trans()
         if o[0] != "ok":
             res.deviation("chunk_relative_frames", dict(op="chunk_relative_frames", **ccase), o[1], "frames", sig="chunk-frames-raises")
         else:
             fr, cbl = o[1]
-            fr5 = F.frames_5to3(fr, strand)
+            rs = M.strand_rel(strand, cs)  # strand of the CDS relative to the chunk
+            fr5 = F.frames_5to3(fr, rs)
             if fr5 and fr5[0] > first_chunk_block_len:
                 # the model is only defined when the start offset fits into the first block (1-2 bp leading block)
                 res.note("chunk-frames", "offset-exceeds-first-block")
             elif len(fr) != len(cbl):
                 res.deviation("chunk_relative_frames", dict(op="chunk_relative_frames", **ccase), fr, "one per chunk block", sig="chunk-frames-count")
             else:
-                mc = F.codons(F.exons_5to3(cbl, strand), F.frames_5to3(fr, strand))
+                mc = F.codons(F.exons_5to3(cbl, rs), F.frames_5to3(fr, rs))
                 # the frames must describe the reading frame of the chromosome codons: every codon they induce inside the
                 # chunk is a chromosome codon, and every chromosome codon fully inside the chunk is induced
-                if [tuple(p + a for p in c) for c in mc] != inc:
+                if [tuple((p + a) if cs == "+" else (b - 1 - p) for p in c) for c in mc] != inc:
                     res.deviation("chunk_relative_frames", dict(op="chunk_relative_frames", **ccase), [fr, [list(c) for c in mc]], [list(c) for c in expc], sig="chunk-frames")
     else:
         # CDS sliced out entirely: chromosome-level CDS answers unchanged (checked above), transcript still coding
